@@ -444,7 +444,15 @@ func runE2E(seed uint64, cas int, mode string, nops int) *E2ERes {
 	every := 25 + rng.Intn(15)
 	for i := 0; i < nops && !s.stop; i++ {
 		var op *Op
-		if mode == "hostile" && i%3 != 2 {
+		if len(s.queue) > 0 {
+			op = s.queue[0]
+			s.queue = s.queue[1:]
+			if s.m.Obj(op.H) == nil {
+				op = nil
+			}
+		}
+		if op != nil {
+		} else if mode == "hostile" && i%3 != 2 {
 			op = s.genHostile(lim)
 			if op.K == OpWrite && op.DataLen > 4<<20 {
 				op.DataLen = 4 << 20
